@@ -357,7 +357,9 @@ func main() {
 		"write followed by a successful one and a restart that drops a flush whose write failed. Collision streams (suite " +
 		"stream, and every fourth stream of suite faults): 1-3 groups of two or three spellings of ONE key that differ only by " +
 		"letter case of the method / host / path / consumer tag / interceptor id, surrounding spaces of method or tag, a " +
-		"trailing '/', the case of a percent escape, or text around the key delimiter ':::' in the URL, both spellings in the " +
+		"trailing '/', the case of a percent escape, text around the key delimiter ':::' in the URL, or bytes that are not valid " +
+		"UTF-8 in the URL / consumer tag / interceptor id / method (Latin-1 letters, truncated and overlong sequences, surrogates, " +
+		"beyond U+10FFFF, F5..FF, runs, next to U+FFFD and to well-formed neighbours), both spellings in the " +
 		"same stream with different counts, in any order of arrival, split threshold mostly 50 (no convergence); run unsplit, " +
 		"under every cut with and without a restart at the cut, and with a last restart after the final record; non-trivial " +
 		"there = some restart met two such spellings in memory")
